@@ -247,6 +247,27 @@ theorem rest_child_accumulates (e : Env) (app : List String) (ts : List Template
       restEpsList e app ts (path ++ String.join (segs.map segText)) (vars ++ segVars segs) (mergeAttrs inh attrs) cs := by
   simp [restEps]
 
+/-- the endpoint names an application ends up with: its endpoints and events, its subscriptions,
+    the methods of its REST trees (named by verb and full path), and the collector block -/
+def endpointKeys (e : Env) (a : App) : List Key :=
+  a.eps.map (fun ep => Key.k "endpoints" ep.name) ++
+  a.subs.map (fun sb => Key.k "endpoints" (joinApp sb.pub ++ " -> " ++ sb.event)) ++
+  (restEpsList e a.parts a.collector "" [] noAttrs a.rest).map (·.1) ++
+  (collectorEp a.collector).map (·.1)
+
+/-- **nothing_undeclared**: the fields of an application's message are its name, its long name if
+    it has one, its attributes, its mixins, exactly the declared and mixed-in types, and exactly
+    the declared endpoints - in that order, nothing else -/
+theorem appNode_keys (e : Env) (f : File) (a : App) :
+    ∃ fs, appNode e f a = .msg fs ∧
+      fs.map (·.1) = [Key.f "name"] ++ (if a.long.isEmpty then [] else [Key.f "long_name"]) ++
+        (attrFields a.attrs).map (·.1) ++ (List.range a.mixins.length).map (Key.i "mixin2") ++
+        typeKeys e f a ++ endpointKeys e a := by
+  refine ⟨_, rfl, ?_⟩
+  simp only [List.map_append, List.map_cons, List.map_nil, indexed_keys, List.length_map, ownTypes_keys, typeKeys,
+    endpointKeys, List.map_map, Function.comp_def, key, List.append_assoc]
+  split <;> simp
+
 /-! ## non-vacuity -/
 
 example : stmtFields ["A"] 0 [.cond "if x" [.action "a", .call [] "Op" noAttrs], .cond "else" [.ret "ok", .action "b", .action "c", .action "d", .action "e"]]
